@@ -319,6 +319,12 @@ func TestVerifC04(t *testing.T) {
 					}
 				}
 			}
+			// what the first call returned must still read the same (results must not
+			// alias state that later calls rewrite)
+			if s := vCanonOrdered(r1); s != first {
+				cs.violation("earlier-result-changed", "the Results returned by the first call changed while later calls were made:\n then: %s\n now:  %s", first, s)
+				return
+			}
 			flood()
 			r3, _ := call(cs, in, 1)
 			if s := vCanonOrdered(r3); s != first {
